@@ -7,6 +7,8 @@ sys.path.insert(0, os.path.join(ROOT, "checks"))
 sys.path.insert(0, os.path.join(ROOT, "tools"))
 import registry, manifest_texts as T  # noqa: E402
 
+SIZES = ("; next to the exhaustive small space a fixed, documented list of large and special cases runs (sizes around powers of two up to "
+         "thousands of elements / bytes / options, particular bytes and values, see DESIGN.md 9 round 5)")
 props = [json.loads(l) for l in open(os.path.join(ROOT, "properties.jsonl"))]
 checks, na = [], []
 for p in props:
